@@ -10,6 +10,7 @@ re-confirmed through the CLI in fresh processes.
 import itertools
 import json
 import os
+import re
 import shutil
 import subprocess
 
@@ -392,6 +393,88 @@ class GlobalOpt(Position):
         return ([[s, '-DG=1', '-DL=1']], [[s, '-Wl,-g', '-Wl,-l']])
 
 
+def sh_enc(s):
+    """One shell word denoting s in the dialect on which /bin/sh and bfg9000's documented option
+    splitting agree: quotes only; characters that sh takes literally in a word stay bare (so that
+    a splitter that mistreats bare text is seen too), runs without a single quote go in '...',
+    runs of single quotes in "..."; no backslashes outside quotes, no $ or ` in double quotes."""
+    if s == '':
+        return "''"
+    out = []
+    for run in re.findall(r"'+|[A-Za-z0-9_@%+=:,./\x80-\U0010ffff-]+|#+|[^'#A-Za-z0-9_@%+=:,./\x80-\U0010ffff-]+", s):
+        if run[0] == "'":
+            out.append('"%s"' % run)
+        elif run[0] == '#':
+            out.append(run if out else "'%s'" % run)      # a word starting with # is a comment
+        elif re.match(r'[A-Za-z0-9_@%+=:,./\x80-\U0010ffff-]', run[0]):
+            out.append(run)
+        else:
+            out.append("'%s'" % run)
+    return ''.join(out)
+
+
+def sh_enc_valid(strings):
+    """run-time witness: the strings whose sh_enc() word /bin/sh itself reads back as the string"""
+    ok = set()
+    for ch in core.chunks(list(strings), 200):
+        p = subprocess.run(['/bin/sh', '-c', 'printf "%s\\0" ' + ' '.join(sh_enc(x) for x in ch)],
+                           stdout=subprocess.PIPE)
+        out = p.stdout.decode('utf-8', 'replace').split('\0')[:-1]
+        if len(out) == len(ch):
+            ok.update(a for a, b in zip(ch, out) if a == b)
+    return ok
+
+
+class _ShEnc:
+    def admissible(self, s, info):
+        return s in info['shenc']
+
+
+class CompileOptString(_ShEnc, CompileOpt):
+    """options given as ONE string that bfg9000 splits by sh rules"""
+    name = 'compile_option_string'
+
+    def script(self, strings):
+        return '\n'.join("object_file('c%d', file='main.c', options=%s)"
+                         % (i, py(sh_enc(s) + "  -DK=1")) for i, s in enumerate(strings)) + '\n'
+
+
+class LinkOptString(_ShEnc, LinkOpt):
+    name = 'link_option_string'
+
+    def script(self, strings):
+        return "o = object_file('main', file='main.c')\n" + '\n'.join(
+            "executable('c%d', [o], link_options=%s)" % (i, py(sh_enc(s) + "\t-Wl,-k"))
+            for i, s in enumerate(strings)) + '\n'
+
+
+class EnvFlags(_ShEnc, Position):
+    """CPPFLAGS / CFLAGS / LDFLAGS / LDLIBS in the environment of `bfg9000 configure`, split by
+    sh rules and carried through the build file's global flag variables"""
+    name = 'configure_env_flags'
+    per_project = True
+
+    def script(self, strings):
+        return "executable('c0', ['main.c'], compile_options=['-DL=1'], link_options=['-Wl,-l'])\n"
+
+    def config_env(self, strings):
+        s, = strings
+        e = sh_enc(s)
+        return {'CPPFLAGS': e + ' -DP=1', 'CFLAGS': '-DG=0 ' + e + ' -DG=1',
+                'LDFLAGS': e + ' -Wl,-g', 'LDLIBS': '-lk ' + e}
+
+    def targets(self, strings):
+        return ['c0']
+
+    def observe(self, i, s, recs):
+        c = _find(recs, lambda r: r['tool'] == 'cc' and '-c' in r['argv'])
+        l = _find(recs, lambda r: r['tool'] == 'cc' and r['outputs'] == ['c0'])
+        return ([_strip_compile(x['argv']) for x in c],
+                [_strip_link(x['argv'], 'c0') for x in l])
+
+    def expected(self, s):
+        return ([[s, '-DP=1', '-DG=0', s, '-DG=1', '-DL=1']], [[s, '-Wl,-g', '-Wl,-l', '-lk', s]])
+
 
 def name_admissible(s):
     """path-component domain: no separators, not . or .., no leading ~ (user expansion),
@@ -462,7 +545,7 @@ class CopyPath(FilePosition):
 
 POSITIONS = [CmdArg(), CmdArgEnvBoth(), BuildStepArg(), CmdWord(), EnvValue(), TestArg(),
              DriverArg(False), DriverArg(True), DriverWord(), CompileOpt(), DefineOpt(),
-             LinkOpt(), GlobalOpt()]
+             LinkOpt(), GlobalOpt(), CompileOptString(), LinkOptString(), EnvFlags()]
 POS = {p.name: p for p in POSITIONS}
 
 
@@ -497,7 +580,10 @@ class Runner:
         if hasattr(pos, 'files'):
             files.update(pos.files(strings))
         bfg.write_tree(src, files)
-        r = bfg.configure(src, bld, self.backend, self.env, inproc=inproc)
+        env = self.env
+        if hasattr(pos, 'config_env'):
+            env = dict(env, **pos.config_env(strings))
+        r = bfg.configure(src, bld, self.backend, env, inproc=inproc)
         diag = ''
         obs = [None] * len(strings)
         if r.rc != 0:
@@ -612,7 +698,8 @@ def confirm(backend, posname, s, times=2):
 
 def run_positions(ctx, backend, positions, strings, small):
     pid = ctx.pid
-    info = {'cmdwords': sh_command_words(strings), 'backend': backend}
+    info = {'cmdwords': sh_command_words(strings), 'backend': backend,
+            'shenc': sh_enc_valid(set(strings) | set(small))}
     shards = []
     excluded = {}
     for pos in positions:
